@@ -12,6 +12,8 @@ from harness.glue import selftest as GS
 from . import lz
 
 REPO = os.environ.get("VERIF_REPO", "/repo")
+MODES = {"fast": lz.MODE_FAST, "normal": lz.MODE_NORMAL}
+MFS = {"hc3": lz.MF_HC3, "hc4": lz.MF_HC4, "bt2": lz.MF_BT2, "bt3": lz.MF_BT3, "bt4": lz.MF_BT4}
 BCJ_IDS = {4: "x86", 5: "powerpc", 6: "ia64", 7: "arm", 8: "armthumb", 9: "sparc", 10: "arm64", 11: "riscv"}
 
 
@@ -206,13 +208,13 @@ def lzma1_subjects(rng, quick, n):
         for form, kw in (("known_size+eopm", dict(usize='auto', eopm=True)), ("known_size", dict(usize='auto', eopm=False)),
                          ("unknown_size+eopm", dict(usize=None))):
             f = GA.build(symbols=syms, lc=lc, lp=lp, pb=pb, dict_size=ds, **kw)
-            b = [1, 5, 13, 18] + [13 + x for x in eb] + [len(f) - 1]
+            b = [1, 5, 13, 14, 15, 16, 17, 18] + [13 + x for x in eb] + [len(f) - 1]
             S.append(sub("alone_decoder", f, "valid:lzma:" + form, {}, b, False, outlen + 4096))
             if i % 3 == 0:
                 S.append(sub("auto_decoder", f, "valid:lzma:" + form, dict(flags=0), b, False, outlen + 4096))
         # raw LZMA1 (marker required) and LZMA1EXT (known size, marker allowed or not)
         fl = [["lzma1", dict(dict_size=ds, lc=lc, lp=lp, pb=pb)]]
-        S.append(sub("raw_decoder", pay_eopm, "valid:raw_lzma1", dict(filters=fl), eb, False, outlen + 4096))
+        S.append(sub("raw_decoder", pay_eopm, "valid:raw_lzma1", dict(filters=fl), [1, 2, 3, 4, 5] + eb, False, outlen + 4096))
         for allow in (0, 1):
             for pay, nm in ((pay_eopm, "eopm"), (pay_noeopm, "noeopm")):
                 fe = [["lzma1ext", dict(dict_size=ds, lc=lc, lp=lp, pb=pb, usize=outlen, ext_flags=allow)]]
@@ -221,6 +223,7 @@ def lzma1_subjects(rng, quick, n):
                              dict(filters=fe), eb, False, outlen + 4096))
         # invalid .lzma
         bad = []
+        rcbad = []
         if outlen > 2:
             bad.append(("size_too_small", GA.build(symbols=syms, lc=lc, lp=lp, pb=pb, dict_size=ds, usize=outlen - 1, eopm=True)))
             bad.append(("size_too_big+eopm", GA.build(symbols=syms, lc=lc, lp=lp, pb=pb, dict_size=ds, usize=outlen + 2, eopm=True)))
@@ -228,6 +231,13 @@ def lzma1_subjects(rng, quick, n):
         bad.append(("props", GA.build(symbols=syms, lc=lc, lp=lp, pb=pb, dict_size=ds, props=225)))
         bad.append(("dist", GA.build(symbols=[('lit', 1), ('match', 5, 4), ('lit', 2)], dict_size=ds)))
         good = GA.build(symbols=syms, lc=lc, lp=lp, pb=pb, dict_size=ds, usize='auto', eopm=True)
+        # range coder initialisation: the first of its five bytes must be 0x00
+        for form, kw in (("known_size+eopm", dict(usize='auto', eopm=True)), ("unknown_size+eopm", dict(usize=None))):
+            g = bytearray(GA.build(symbols=syms, lc=lc, lp=lp, pb=pb, dict_size=ds, **kw))
+            g[13] = rng.choice((1, 0x80, 0xFF))
+            rcbad.append(("alone_decoder", bytes(g), "invalid:lzma:rc_init_nonzero", {}, [13, 14, 15, 16, 17, 18]))
+        g = bytearray(pay_eopm); g[0] = rng.choice((1, 0x40, 0xFF))
+        rcbad.append(("raw_decoder", bytes(g), "invalid:raw_lzma1:rc_init_nonzero", dict(filters=fl), [1, 2, 3, 4, 5]))
         bad.append(("garbage_after", good + b"\x00\x01garbage"))
         flipped = bytearray(good); flipped[-1] ^= 0x40
         bad.append(("last_byte", bytes(flipped)))
@@ -239,8 +249,10 @@ def lzma1_subjects(rng, quick, n):
         if quick:
             bad = rng.sample(bad, min(7, len(bad)))
         for nm, f in bad:
-            b = [1, 5, 13, 18, len(f) - 6, len(f) - 2, len(f) - 1]
+            b = [1, 5, 13, 14, 15, 16, 17, 18, len(f) - 6, len(f) - 2, len(f) - 1]
             S.append(sub("alone_decoder", f, "invalid:lzma:" + nm, {}, b, False, outlen + 4096))
+        for entry, f, cls, a, b in rcbad:
+            S.append(sub(entry, f, cls, a, b, False, outlen + 4096))
     return S
 
 
@@ -285,6 +297,21 @@ def lzma2_subjects(rng, quick, n):
         for c in G2.parse_chunks(f):
             b += [c['offset'], c['offset'] + c.get('header_len', 1), c.get('payload_offset', c['offset'])]
         l2 = ["lzma2", dict(dict_size=ds)]
+        rcb = []
+        lz_chunks = [c for c in G2.parse_chunks(f) if c['kind'] == 'lzma']
+        for c in lz_chunks:
+            rcb += [c['payload_offset'] + k for k in range(0, 6)]
+        b = b + rcb
+        if lz_chunks:
+            # first byte of the range coder initialisation of one LZMA chunk is not 0x00
+            c = rng.choice(lz_chunks)
+            g = bytearray(f); g[c['payload_offset']] = rng.choice((1, 0x80, 0xFF))
+            S.append(sub("raw_decoder", bytes(g), "invalid:raw_lzma2:rc_init_nonzero", dict(filters=[l2]), b, False, len(want) + 4096))
+            x, xmap = GX.build([dict(check=1, blocks=[dict(data=bytes(g), uncompressed=want, dict_size=ds)])])
+            doff = [o for nm, o, l in xmap if nm.endswith("b0.data")][0]
+            xb = fmap_bounds(xmap) + [doff + y for y in rcb]
+            S.append(sub("stream_decoder", x, "invalid:xz:rc_init_nonzero", dict(flags=lz.CONCATENATED), xb, False, len(want) + 4096))
+            S.append(sub("stream_decoder_mt", x, "invalid:xz:rc_init_nonzero", dict(flags=lz.CONCATENATED, threads=2), xb, False, len(want) + 4096))
         S.append(sub("raw_decoder", f, "valid:raw_lzma2", dict(filters=[l2]), b, False, len(want) + 4096))
         S.append(sub("raw_decoder", f, "valid:raw_delta+lzma2", dict(filters=[["delta", dict(dist=rng.choice([1, 2, 256]))], l2]),
                      b, False, len(want) + 4096))
@@ -317,7 +344,9 @@ def lzip_subjects(rng, quick, n):
         one = GZ.build([m1])
         hl = 6
         tl = 20 if v == 1 else 12
-        b = [4, 5, 6, 11, len(one) - tl - 6, len(one) - tl - 1, len(one) - tl, len(one) - tl + 4, len(one) - 8, len(one) - 1]
+        b = [4, 5, 6, 7, 8, 9, 10, 11, len(one) - tl - 6, len(one) - tl - 1, len(one) - tl, len(one) - tl + 4, len(one) - 8, len(one) - 1]
+        rcz = bytearray(one); rcz[6] = rng.choice((1, 0x80, 0xFF))
+        S.append(sub("lzip_decoder", bytes(rcz), "invalid:lz:rc_init_nonzero", dict(flags=lz.CONCATENATED), b, False, outlen + 4096))
         cases = [("valid:lz:one", one), ("valid:lz:two", GZ.build([m1, m2])), ("valid:lz:trailing", GZ.build([m1], trailing=b"LZ\x00junk")),
                  ("invalid:lz:crc", GZ.build([dict(m1, crc32=1)])), ("invalid:lz:data_size", GZ.build([dict(m1, data_size=outlen + 1)])),
                  ("invalid:lz:member_size", GZ.build([dict(m1, version=1, member_size=7)])),
@@ -405,7 +434,9 @@ def encoder_subjects(rng, quick):
         for dn, d in (datas if not quick else rng.sample(datas, 3)):
             cap = len(d) * 2 + 4096
             S.append(sub("stream_encoder", d, "enc:%s:%s" % (cn, dn), dict(filters=ch, check=rng.choice([0, 1, 4, 10])), [], False, cap, "enc"))
+            S[-1]["roundtrip"] = ["stream_decoder", dict(flags=0)]
             S.append(sub("raw_encoder", d, "enc:%s:%s" % (cn, dn), dict(filters=ch), [], False, cap, "enc"))
+            S[-1]["roundtrip"] = ["raw_decoder", dict(filters=ch)]
             if rng.random() < 0.5 or not quick:
                 S.append(sub("block_encoder", d, "enc:%s:%s" % (cn, dn), dict(filters=ch, check=rng.choice([0, 1, 4, 10])), [], False, cap, "enc"))
     for dn, d in datas:
@@ -415,6 +446,36 @@ def encoder_subjects(rng, quick):
         S.append(sub("raw_encoder", d, "enc:lzma1:" + dn, dict(filters=[["lzma1", dict(preset=1, dict_size=1 << 16)]]), [], False, cap, "enc"))
         S.append(sub("stream_encoder_mt", d + d, "enc:mt:" + dn, dict(threads=rng.choice([1, 2, 3]), block_size=1024, preset=0, check=1),
                      [1024, 2048], False, 2 * cap, "enc"))
+    # the option lattice of the LZMA encoder (not only presets): mode x match finder x nice_len corner x depth,
+    # on data long enough for pieces of odd sizes; every (mode, mf) pair appears in every run
+    # data with every kind of LZ behaviour: short matches (text), literals (random), long matches >= nice_len
+    # (a 700-byte block repeated with a few changed bytes), runs
+    blk = bytes(rng.getrandbits(8) for _ in range(700))
+    rep = bytearray(blk * 7)
+    for _ in range(12):
+        rep[rng.randrange(len(rep))] ^= 0x55
+    big = text(rng, 5000) + bytes(rep) + GS.sample_code_like(rng, 2500) + bytes(rng.getrandbits(8) for _ in range(600)) \
+        + bytes(900) + text(rng, 3000) + bytes(rep[:1500])
+    HASH = {"hc3": 3, "hc4": 4, "bt2": 2, "bt3": 3, "bt4": 4}
+    for mode in ("fast", "normal"):
+        for mf in ("hc3", "hc4", "bt2", "bt3", "bt4"):
+            for rep in range(1 if quick else 3):
+                nice = rng.choice((HASH[mf], 32, 273)) if rep else rng.choice((32, 273))
+                o = dict(preset=0, dict_size=rng.choice((4096, 1 << 16)), mode=MODES[mode], mf=MFS[mf], nice_len=nice,
+                         depth=rng.choice((0, 0, 3)), lc=rng.choice((3, 0)), lp=0, pb=rng.choice((2, 0)))
+                which = rng.choice(("lzma2", "lzma1", "alone", "stream"))
+                cls = "enc:lattice:%s:%s:nice%d" % (mode, mf, nice)
+                if which == "alone":
+                    e = sub("alone_encoder", big, cls, dict(lzma=o), [4093, 8186], False, 2 * len(big) + 4096, "enc")
+                    e["roundtrip"] = ["alone_decoder", {}]
+                elif which == "stream":
+                    e = sub("stream_encoder", big, cls, dict(filters=[["lzma2", o]], check=4), [4093, 8186], False, 2 * len(big) + 4096, "enc")
+                    e["roundtrip"] = ["stream_decoder", dict(flags=0)]
+                else:
+                    e = sub("raw_encoder", big, cls, dict(filters=[[which, o]]), [4093, 8186], False, 2 * len(big) + 4096, "enc")
+                    e["roundtrip"] = ["raw_decoder", dict(filters=[[which, dict(dict_size=o["dict_size"], lc=o["lc"], lp=0, pb=o["pb"])]])]
+                e["lattice"] = True
+                S.append(e)
     S.append(sub("index_encoder", b"", "enc:index", dict(records=[(100, 1000), (52, 1), (4000, 70000)] * 5), [], False, 4096, "enc"))
     return S
 
@@ -426,7 +487,11 @@ def determinism_groups(rng, quick):
     d2 = GS.sample_code_like(rng, 7000)
     chains = [None, [["lzma2", dict(preset=0, dict_size=1 << 16)]],
               [["x86", {}], ["delta", dict(dist=2)], ["lzma2", dict(preset=1, dict_size=1 << 16, lc=2, lp=1, pb=1)]]]
-    plans = [{"k": "oneshot"}, {"k": "in1"}, {"k": "lists", "ins": [1, 0, 1023, 1, 1024, 2049], "outs": [0, 1, 5], "orep": 0},
+    mode = rng.choice(("fast", "normal")); mf = rng.choice(("bt2", "bt3", "bt4", "hc3", "hc4"))
+    chains.append([["lzma2", dict(preset=0, dict_size=1 << 16, mode=MODES["fast"], mf=MFS[rng.choice(("bt2", "bt3", "bt4"))], nice_len=273)]])
+    chains.append([["lzma2", dict(preset=0, dict_size=1 << 16, mode=MODES[mode], mf=MFS[mf], nice_len=rng.choice((8, 64, 273)))]])
+    plans = [{"k": "oneshot"}, {"k": "in1"}, {"k": "pieces", "size": 4093}, {"k": "pieces", "size": 333},
+             {"k": "lists", "ins": [1, 0, 1023, 1, 1024, 2049], "outs": [0, 1, 5], "orep": 0},
              {"k": "lists", "ins": [], "irep": 777, "orep": 13}]
     for di, d in enumerate([d1, d2] if not quick else [rng.choice([d1, d2])]):
         for ci, ch in enumerate(chains):
@@ -451,3 +516,42 @@ def determinism_groups(rng, quick):
         runs = [dict(args={}, plan=p) for p in plans] + [dict(args=dict(via_string=True), plan=p) for p in plans[:2]]
         G.append(dict(entry=entry, cls="group:" + entry, args=args, data=d2[:3000], runs=runs))
     return G
+
+
+# ------------------------------------------------------------------------------------------------ threaded decoder, big Blocks
+def mt_big_subjects(rng, quick):
+    """Blocks with sizes in their headers (threaded encoder output) that are larger than one input piece: truncated inside
+    the Block / its Padding / its Check, and corrupted in the middle, for lzma_stream_decoder_mt with timeout 0 and > 0."""
+    from . import coders
+    S = []
+    n = 150000 if quick else 400000
+    d = bytearray()
+    while len(d) < n:
+        d += rng.choice((text(rng, 3000), GS.sample_code_like(rng, 2000), bytes(rng.getrandbits(8) for _ in range(500)), bytes(700)))
+    d = bytes(d[:n])
+    x = coders.encode_xz(d, preset=0, check=lz.CHECK_CRC64, block_size=1 << 22)
+    ev = {nm: (o, l) for nm, o, l, _ in GX.parse(x, collect=None).events}
+    data_off, data_len = ev["s0.b0.data"]
+    pad_off = data_off + data_len
+    chk_off, chk_len = ev["s0.b0.check"]
+    bounds = [data_off, pad_off, chk_off, chk_off + chk_len]
+    cuts = [("in_data", data_off + int(data_len * rng.uniform(0.3, 0.9))), ("in_check", chk_off + rng.randint(1, chk_len - 1)),
+            ("before_check", chk_off)]
+    if chk_off > pad_off:
+        cuts.append(("in_padding", pad_off + rng.randint(0, chk_off - pad_off - 1) + 0))
+    for to in (0, 20):
+        a = dict(flags=lz.CONCATENATED, threads=2, timeout=to)
+        S.append(sub("stream_decoder_mt", x, "valid:xz:big:timeout%d" % to, a, bounds, False, n + 4096))
+        for nm, c in (cuts if not quick else rng.sample(cuts, 2)):
+            S.append(sub("stream_decoder_mt", x[:c], "invalid:xz:big:truncated_%s:timeout%d" % (nm, to), a, bounds, False, n + 4096))
+        # corruption in the middle of the Block: a reserved LZMA2 control byte / a flipped byte of LZMA data
+        chunks = [c for c in G2.parse_chunks(x[data_off:data_off + data_len]) if c['kind'] in ('lzma', 'uncompressed')]
+        c = chunks[len(chunks) // 3]
+        g = bytearray(x); g[data_off + c['offset']] = 0x03
+        S.append(sub("stream_decoder_mt", bytes(g), "invalid:xz:big:control_byte:timeout%d" % to, a, bounds, False, n + 4096))
+        g = bytearray(x); g[data_off + data_len // 2] ^= 0x20
+        S.append(sub("stream_decoder_mt", bytes(g), "mutated:xz:big:timeout%d" % to, a, bounds, False, n + 4096))
+    for s in S:
+        s["mtbig"] = True
+        s["timeout"] = 60
+    return S
